@@ -210,10 +210,11 @@ structure Slice where
 
 namespace Slice
 
-/-- `SliceReader::check_eor` (the sum is taken in ℕ; `pos + num_bytes` overflowing `usize` is outside
-    this model) -/
+/-- `SliceReader::check_eor`: `num_bytes > self.source.len() - self.pos` (`usize` subtraction; it would
+    underflow, i.e. panic, if `pos` exceeded the length) -/
 def checkEor (t : Slice) (n : Nat) : Res Unit × Slice :=
-  if t.pos + n > t.source.length then (.eof, t) else (.ok (), t)
+  if t.source.length < t.pos then (.panic, t)
+  else if n > t.source.length - t.pos then (.eof, t) else (.ok (), t)
 
 /-- `self.source[self.pos]`: an index out of bounds is a panic -/
 def readU8 (t : Slice) : Res Nat × Slice :=
